@@ -367,6 +367,7 @@ pub fn run(cfg: &RunCfg) -> Report {
     }
     children(cfg, &mut rep, &work, &inputs);
     macro_wrapping(cfg, &mut rep);
+    builder_sequences(&mut rep, &work);
     let _ = std::fs::remove_dir_all(&work);
     rep
 }
@@ -428,7 +429,7 @@ fn children(cfg: &RunCfg, rep: &mut Report, work: &Path, inputs: &[(Vec<String>,
                 }
             }
             // CLI --stdout / --no-output / -o file / -o dir / default
-            for variant in 0..5 {
+            for variant in 0..6 {
                 let dest = work.join("cliout");
                 let _ = std::fs::remove_dir_all(&dest);
                 let _ = std::fs::create_dir_all(&dest);
@@ -461,13 +462,31 @@ fn children(cfg: &RunCfg, rep: &mut Report, work: &Path, inputs: &[(Vec<String>,
                         c.arg("-o").arg(&d);
                         Some(d.join(format!("generated.{ext}")))
                     }
+                    5 => {
+                        // a destination whose parent directory does not exist: the library's compile() is an Err there
+                        // (it creates no directories), and nothing may be left behind, compilation failed or not
+                        let f = dest.join("missing").join("deeper").join(format!("out.{ext}"));
+                        c.arg("-o").arg(&f);
+                        let before = snapshot(&dest);
+                        let (code, out, _) = run_child(&mut c);
+                        rep.evaluations += 1;
+                        rep.count("child:cli-m:missing-parent");
+                        let what = json!({"kind": "cli", "sources": texts, "typescript": ts, "variant": variant});
+                        if code == 0 {
+                            rep.unsat("", false, json!({"why": "CLI exits 0 for a destination whose parent directory does not exist, where compile() returns an Err", "case": what}));
+                        }
+                        if dest.join("missing").exists() || snapshot(&dest) != before || !out.is_empty() {
+                            rep.unsat("", false, json!({"why": format!("CLI with a destination in a missing directory left something behind (directory created: {}, stdout {} bytes)", dest.join("missing").exists(), out.len()), "case": what}));
+                        }
+                        continue;
+                    }
                     _ => Some(dest.join(format!("generated.{ext}"))),
                 };
                 let before = snapshot(&dest);
                 let (code, out, err) = run_child(&mut c);
                 let after = snapshot(&dest);
                 rep.evaluations += 1;
-                rep.count(&format!("child:cli-m:{}", ["stdout", "no-output", "o-file", "o-dir", "default"][variant]));
+                rep.count(&format!("child:cli-m:{}", ["stdout", "no-output", "o-file", "o-dir", "default", "missing-parent"][variant]));
                 let what = json!({"kind": "cli", "sources": texts, "typescript": ts, "variant": variant});
                 let mut want = before.clone();
                 let mut want_out: Vec<u8> = vec![];
@@ -582,6 +601,67 @@ fn children(cfg: &RunCfg, rep: &mut Report, work: &Path, inputs: &[(Vec<String>,
             }
         }
     }
+}
+
+/// The builder may be fed in any order: literals, single paths and path lists mixed; the output mode before or
+/// after; the backend swapped with `with_backend`. What is delivered is the compilation of *all* sources, at the
+/// destination named, in the language of the backend that finally compiles.
+fn builder_sequences(rep: &mut Report, work: &Path) {
+    let dir = work.join("seq");
+    let _ = std::fs::remove_dir_all(&dir);
+    let _ = std::fs::create_dir_all(dir.join("out"));
+    let ma = "Seq-A DEFINITIONS AUTOMATIC TAGS ::= BEGIN\nAa ::= INTEGER (0..7)\nEND\n";
+    let mb = "Seq-B DEFINITIONS AUTOMATIC TAGS ::= BEGIN\nBb ::= BOOLEAN\nEND\n";
+    let mc = "Seq-C DEFINITIONS AUTOMATIC TAGS ::= BEGIN\nCc ::= NULL\nEND\n";
+    let (pa, pb, pc) = (dir.join("a.asn"), dir.join("b.asn"), dir.join("c.asn"));
+    for (p, t) in [(&pa, ma), (&pb, mb), (&pc, mc)] {
+        let _ = std::fs::write(p, t);
+    }
+    let all = |ts: bool| -> Option<String> {
+        let r = if ts {
+            Compiler::<TypescriptBackend, _>::new().add_asn_literal(ma).add_asn_literal(mb).add_asn_literal(mc).compile_to_string()
+        } else {
+            Compiler::<RasnBackend, _>::new().add_asn_literal(ma).add_asn_literal(mb).add_asn_literal(mc).compile_to_string()
+        };
+        r.ok().map(|r| r.generated)
+    };
+    let (Some(want_rs), Some(want_ts)) = (all(false), all(true)) else {
+        rep.harness_errors.push("builder sequences: the three modules do not compile".into());
+        return;
+    };
+    let mut check = |label: &str, got: Result<String, String>, want: &String| {
+        rep.evaluations += 1;
+        rep.count("builder-sequence");
+        match got {
+            Ok(g) if &g == want => {}
+            Ok(g) => rep.unsat("", false, json!({"why": format!("builder sequence `{label}`: the result differs from the compilation of all three sources ({} vs {} bytes)", g.len(), want.len()), "case": {"kind": "builder-sequence", "sequence": label}})),
+            Err(e) => rep.unsat("", false, json!({"why": format!("builder sequence `{label}`: {e}"), "case": {"kind": "builder-sequence", "sequence": label}})),
+        }
+    };
+    let s = |r: Result<rasn_compiler::CompileResult, CompilerError>| r.map(|x| x.generated).map_err(|e| e.to_string());
+    check("literal A, path list [B, C]", s(Compiler::<RasnBackend, _>::new().add_asn_literal(ma).add_asn_sources_by_path(vec![pb.clone(), pc.clone()].into_iter()).compile_to_string()), &want_rs);
+    check("path A, path list [B, C]", s(Compiler::<RasnBackend, _>::new().add_asn_by_path(&pa).add_asn_sources_by_path(vec![pb.clone(), pc.clone()].into_iter()).compile_to_string()), &want_rs);
+    check("path list [A], literal B, path C", s(Compiler::<RasnBackend, _>::new().add_asn_sources_by_path(vec![pa.clone()].into_iter()).add_asn_literal(mb).add_asn_by_path(&pc).compile_to_string()), &want_rs);
+    check("path list [A, B], path list [C]", s(Compiler::<RasnBackend, _>::new().add_asn_sources_by_path(vec![pa.clone(), pb.clone()].into_iter()).add_asn_sources_by_path(vec![pc.clone()].into_iter()).compile_to_string()), &want_rs);
+    check("literal A, literal B, path list [C] (TypeScript)", s(Compiler::<TypescriptBackend, _>::new().add_asn_literal(ma).add_asn_literal(mb).add_asn_sources_by_path(vec![pc.clone()].into_iter()).compile_to_string()), &want_ts);
+    // output mode set first / in between / last; backend swapped afterwards: the file is the final backend's
+    let out = dir.join("out");
+    let read = |name: &str| std::fs::read_to_string(out.join(name)).map_err(|e| format!("{name}: {e}"));
+    let clean = || {
+        let _ = std::fs::remove_dir_all(&out);
+        let _ = std::fs::create_dir_all(&out);
+    };
+    clean();
+    let r = Compiler::<RasnBackend, _>::new().set_output_mode(OutputMode::SingleFile(out.clone())).add_asn_literal(ma).add_asn_sources_by_path(vec![pb.clone(), pc.clone()].into_iter()).compile();
+    check("output directory first, literal A, path list [B, C]", r.map_err(|e| e.to_string()).and_then(|_| read("generated.rs")), &want_rs);
+    clean();
+    let r = Compiler::<RasnBackend, _>::new().add_asn_literal(ma).add_asn_literal(mb).add_asn_literal(mc).set_output_mode(OutputMode::SingleFile(out.clone())).with_backend(TypescriptBackend::default()).compile();
+    check("sources, output directory, then with_backend(TypeScript)", r.map_err(|e| e.to_string()).and_then(|_| read("generated.ts")), &want_ts);
+    let leftover: Vec<String> = std::fs::read_dir(&out).map(|d| d.filter_map(|e| e.ok().map(|e| e.file_name().to_string_lossy().to_string())).collect()).unwrap_or_default();
+    check("with_backend(TypeScript): the output directory holds exactly generated.ts", if leftover == vec!["generated.ts".to_string()] { Ok(want_ts.clone()) } else { Err(format!("it holds {:?}", leftover)) }, &want_ts);
+    clean();
+    let r = Compiler::<TypescriptBackend, _>::new().set_output_mode(OutputMode::SingleFile(out.clone())).with_backend(RasnBackend::default()).add_asn_literal(ma).add_asn_literal(mb).add_asn_literal(mc).compile();
+    check("output directory, with_backend(rasn), then sources", r.map_err(|e| e.to_string()).and_then(|_| read("generated.rs")), &want_rs);
 }
 
 fn macro_wrapping(cfg: &RunCfg, rep: &mut Report) {
